@@ -881,8 +881,9 @@ theorem invGammaP_guard_iff (a : Rat) : invGammaPGuard a = stop ↔ ¬ invGammaP
 theorem round_guard_iff (N : Rat) (digits : Nat) : roundGuard N digits = stop ↔ ¬ roundMeaningful digits := by
   unfold roundGuard roundMeaningful stop pass
   split_ifs <;> simp_all
+  all_goals omega
 
-example : roundGuard 0 8 = stop ∧ roundGuard 0 7 = pass := by decide
+example : roundGuard 0 8 = stop ∧ roundGuard 0 7 = pass ∧ roundGuard 1 0 = stop := by decide
 
 theorem vsh_guard_iff (component : Int) : vshGuard component = stop ↔ ¬ vshMeaningful component := by
   unfold vshGuard vshMeaningful stop pass
@@ -900,22 +901,30 @@ theorem invErf_guard_iff (p : Rat) : invErfGuard p = stop ↔ ¬ invErfMeaningfu
       unfold rabs at h1
       split at h1 <;> constructor <;> linarith
   · rw [if_neg h1]
-    by_cases h2 : rabs p ≥ 1
-    · rw [if_pos h2]
-      simp only [true_iff]
-      rintro ⟨ha, hb⟩
-      unfold rabs at h1 h2
-      split at h2
-      · linarith
-      · split at h1 <;> linarith
-    · rw [if_neg h2]
+    by_cases h1' : rabs (p + 1) < invErfEps
+    · rw [if_pos h1']
       constructor
       · intro hh; simp [stop, pass] at hh
       · intro hn; exfalso; apply hn
-        unfold rabs at h2
-        split at h2 <;> constructor <;> linarith
+        unfold rabs at h1'
+        split at h1' <;> constructor <;> linarith
+    · rw [if_neg h1']
+      by_cases h2 : rabs p ≥ 1
+      · rw [if_pos h2]
+        simp only [true_iff]
+        rintro ⟨ha, hb⟩
+        unfold rabs at h1 h1' h2
+        split at h2
+        · split at h1' <;> linarith
+        · split at h1 <;> linarith
+      · rw [if_neg h2]
+        constructor
+        · intro hh; simp [stop, pass] at hh
+        · intro hn; exfalso; apply hn
+          unfold rabs at h2
+          split at h2 <;> constructor <;> linarith
 
-example : invErfMeaningful (1/2) ∧ invErfMeaningful 1 ∧ ¬ invErfMeaningful (-1) := by
+example : invErfMeaningful (1/2) ∧ invErfMeaningful 1 ∧ invErfMeaningful (-1) ∧ ¬ invErfMeaningful (-2) := by
   unfold invErfMeaningful invErfEps; norm_num
 
 /-! ## 7. Statistics -/
@@ -933,6 +942,41 @@ theorem poissonMean_guard_iff (mu : Rat) : poissonMeanGuard mu = stop ↔ ¬ poi
 theorem positive_guard_iff (a : Rat) : positiveGuard a = stop ↔ ¬ positiveMeaningful a := by
   unfold positiveGuard positiveMeaningful stop pass
   split <;> simp_all
+
+theorem chiBar_guard_iff (ws : List Rat) : chiBarGuard ws = stop ↔ ¬ chiBarMeaningful ws := by
+  unfold chiBarGuard chiBarMeaningful
+  split
+  · rename_i h; simp only [List.all_eq_true, Bool.and_eq_true, decide_eq_true_eq] at h
+    constructor
+    · intro hh; simp [stop, pass] at hh
+    · intro hn; exact absurd h hn
+  · rename_i h; simp only [List.all_eq_true, Bool.and_eq_true, decide_eq_true_eq] at h
+    simp only [true_iff]; exact fun hh => h hh
+
+theorem importTableFill_guard_iff (entries rows nd : Nat) :
+    importTableFillGuard entries rows nd = stop ↔ ¬ importTableFillMeaningful entries rows nd := by
+  unfold importTableFillGuard importTableFillMeaningful
+  by_cases h0 : rows = 0
+  · simp [h0, stop, pass]
+  · rw [if_neg h0]
+    have hd : entries = rows * (entries / rows) ↔ entries % rows = 0 := by
+      constructor
+      · intro h; rw [h]; simp [Nat.mul_mod_right]
+      · intro h; have := Nat.div_add_mod entries rows; omega
+    by_cases h1 : entries ≠ rows * (entries / rows)
+    · rw [if_pos h1]; simp only [true_iff]
+      rintro (h | ⟨h, _⟩)
+      · exact h0 h
+      · exact h1 (hd.mpr h)
+    · rw [if_neg h1]; push Not at h1
+      have hm := hd.mp h1
+      split
+      · rename_i h2; simp only [true_iff]
+        rintro (h | ⟨_, h | h⟩) <;> omega
+      · rename_i h2
+        constructor
+        · intro hh; simp [stop, pass] at hh
+        · intro hn; exfalso; apply hn; right; exact ⟨hm, by omega⟩
 
 theorem binned_guard_iff (nPred nObs nBkg : Nat) :
     binnedGuard nPred nObs nBkg = stop ↔ ¬ binnedMeaningful nPred nObs nBkg := by
